@@ -28,6 +28,11 @@ Definition fault_classes (fmt : nat) : list rcls :=
   | _ => [RcFatal]
   end.
 
+(* Which error VALUE the failing input reader returns does not matter: end of input is the value
+   io.EOF itself (Go ==), everything else -- io.ErrUnexpectedEOF, errors wrapping io.EOF, an error
+   whose text is "EOF", struct or pointer typed errors -- is a fault (Model/Chunk.v: IoFault e for
+   every e, never IoEOF).  The c16 generators use all of these values. *)
+
 (* The classification before the F10 repair: "failed to fetch record" was a plain error. *)
 Definition fault_classes_pre_f10 (fmt : nat) : list rcls :=
   match fmt with
